@@ -2,7 +2,7 @@ CONSTANTS
  Confs <- MCConfs
  FixWaitErr = TRUE
  Reduce = TRUE
- MCShapes = {"img", "dup", "idx2", "nested", "bentry", "docker", "schema1", "ext", "empty", "inline", "dtag"}
+ MCShapes = {"img", "dup", "idx2", "nested", "bentry", "docker", "schema1", "ext", "empty", "inline", "dtag", "dupentry", "inlinebad", "sha512"}
  MCPairs = {"tworeg", "samereg", "reg2dir", "dir2reg"}
  MCOpts <- MCOptsNoRefs
  MCFeats <- MCFeatsDefault
